@@ -84,7 +84,7 @@ var (
 	siteLog  map[string]int // site -> executions with >= 2 keys
 	siteSeen map[string]int // site -> executions
 	ticks    int64
-	budget   int64
+	budget   int64 = 1<<63 - 1 // unlimited until a plan sets one
 	hung     int32
 	hangCh   chan struct{}
 	tieSites map[string]int
@@ -120,8 +120,11 @@ func Reset(p Plan) {
 	tieSites = map[string]int{}
 	decHash = 14695981039346656037
 	decCount = 0
-	atomic.StoreInt64(&ticks, 0)
-	atomic.StoreInt64(&budget, p.Budget)
+	ticks = 0
+	budget = p.Budget
+	if budget <= 0 {
+		budget = 1<<63 - 1
+	}
 	atomic.StoreInt32(&hung, 0)
 	hangCh = make(chan struct{})
 	capBuf.Reset()
@@ -202,25 +205,39 @@ func Order[M ~map[K]V, K comparable, V any](m M, site string) []Entry[K, V] {
 	for k := range m {
 		es = append(es, Entry[K, V]{k, m})
 	}
-	for i := range es {
-		keys = append(keys, render(es[i].K))
-	}
-	idx := make([]int, len(es))
-	for i := range idx {
-		idx[i] = i
-	}
-	sort.SliceStable(idx, func(a, b int) bool { return keys[idx[a]] < keys[idx[b]] })
 	tie := false
-	for i := 1; i < len(idx); i++ {
-		if keys[idx[i]] == keys[idx[i-1]] {
-			tie = true
+	fast := false
+	if len(es) > 0 {
+		// fast paths for the common key types (this function sits inside nested loops of the generator)
+		switch any(es[0].K).(type) {
+		case int:
+			sort.Slice(es, func(a, b int) bool { return any(es[a].K).(int) < any(es[b].K).(int) })
+			fast = true
+		case string:
+			sort.Slice(es, func(a, b int) bool { return any(es[a].K).(string) < any(es[b].K).(string) })
+			fast = true
 		}
 	}
-	sorted := make([]Entry[K, V], len(es))
-	for i, j := range idx {
-		sorted[i] = es[j]
+	if !fast {
+		for i := range es {
+			keys = append(keys, render(es[i].K))
+		}
+		idx := make([]int, len(es))
+		for i := range idx {
+			idx[i] = i
+		}
+		sort.SliceStable(idx, func(a, b int) bool { return keys[idx[a]] < keys[idx[b]] })
+		for i := 1; i < len(idx); i++ {
+			if keys[idx[i]] == keys[idx[i-1]] {
+				tie = true
+			}
+		}
+		sorted := make([]Entry[K, V], len(es))
+		for i, j := range idx {
+			sorted[i] = es[j]
+		}
+		es = sorted
 	}
-	es = sorted
 
 	mu.Lock()
 	defer mu.Unlock()
@@ -332,24 +349,31 @@ type HangPanic struct{ Ticks int64 }
 
 func (h HangPanic) Error() string { return fmt.Sprintf("simrt: tick budget exhausted at %d", h.Ticks) }
 
-// Tick advances simulated time by one.
+// Tick advances simulated time by one. It is on every loop head of the instrumented program, so it is kept small
+// enough to be inlined: a plain increment and one comparison. The counter is deliberately not atomic: the lexer task
+// and the parser task may both tick, a lost increment only makes simulated time run marginally slow, and tick totals
+// are never part of an event log.
 func Tick() {
-	t := atomic.AddInt64(&ticks, 1)
-	b := atomic.LoadInt64(&budget)
-	if b > 0 && t > b {
-		if atomic.CompareAndSwapInt32(&hung, 0, 1) {
-			mu.Lock()
-			ch := hangCh
-			mu.Unlock()
-			if ch != nil {
-				close(ch)
-			}
-		}
-		panic(HangPanic{t})
+	ticks++
+	if ticks > budget {
+		tickOver()
 	}
 }
 
-func Ticks() int64 { return atomic.LoadInt64(&ticks) }
+func tickOver() {
+	t := ticks
+	if atomic.CompareAndSwapInt32(&hung, 0, 1) {
+		mu.Lock()
+		ch := hangCh
+		mu.Unlock()
+		if ch != nil {
+			close(ch)
+		}
+	}
+	panic(HangPanic{t})
+}
+
+func Ticks() int64 { return ticks }
 func Hung() bool   { return atomic.LoadInt32(&hung) != 0 }
 
 // HangCh is closed when some task exhausted the budget.
